@@ -13,15 +13,31 @@
                spike i, coming from probe k with original template t, row (merged spike_templates[i]) of the merged
                templates.npy is not template t of probe k on probe k's channel block, or that row of the merged
                template_feature_ind.npy is not probe k's row t renumbered by the template offset of probe k
-          3  = input outside the stated regime (harness bug) *)
+          3  = input outside the stated regime (harness bug)
+   Code 1 also covers the dtypes of the merged files (Dtypes.v: merged_dt of the probes' dtypes against the dtypes
+   observed in the merged directory); no clause of the statement is about dtypes, so a dtype deviation alone is a
+   model mismatch, never one of the codes 21-27. *)
 From Coq Require Import ZArith List Bool Arith.
-From PV Require Export Base.Tok Base.NpSearch C12.Model C12.Spec.
+From PV Require Export Base.Tok Base.NpSearch C12.Model C12.Spec C12.Dtypes.
 From PV Require Import C12.Link.
 From PV Require C11.Model C11.Spec C11.Proofs.
 Import ListNotations.
 Open Scope Z_scope.
 
 Record txy := mktxy { tx : tok; ty : tok }.
+
+(* dtypes observed in the merged directory; None = file not written (or a dtype outside idt / fdt) *)
+Record odt := mkodt {
+  od_map : option idt; od_probe : option idt; od_pos : option fdt; od_tmpl : option fdt;
+  od_pc : option idt; od_tf : option idt; od_wm : option fdt; od_wmi : option fdt; od_sim : option fdt
+}.
+Definition oidt_eqb (a b : option idt) : bool :=
+  match a, b with Some x, Some y => idt_eqb x y | None, None => true | _, _ => false end.
+Definition odt_matches (m : mdt) (o : odt) : bool :=
+  oidt_eqb (Some (md_map m)) (od_map o) && oidt_eqb (Some (md_probe m)) (od_probe o) &&
+  ofdt_eqb (Some (md_pos m)) (od_pos o) && ofdt_eqb (Some (md_tmpl m)) (od_tmpl o) &&
+  oidt_eqb (Some (md_pc m)) (od_pc o) && oidt_eqb (Some (md_tf m)) (od_tf o) &&
+  ofdt_eqb (md_wm m) (od_wm o) && ofdt_eqb (md_wmi m) (od_wmi o) && ofdt_eqb (md_sim m) (od_sim o).
 
 Record obsrec := mkobs {
   o_par : option (params tok);          (* None: params.py unreadable, or dat_path is not [] *)
@@ -31,7 +47,8 @@ Record obsrec := mkobs {
   o_wm : option (list (list tok)); o_wmi : option (list (list tok)); o_sim : option (list (list tok));
   o_crashed : list Z;                   (* clause codes of the Merger methods that raised *)
   o_stimes : option (list Z);           (* merged spike_times.npy *)
-  o_st : option (list Z)                (* merged spike_templates.npy *)
+  o_st : option (list Z);               (* merged spike_templates.npy *)
+  o_dt : odt                            (* dtypes of the merged files *)
 }.
 
 (* the spike side of a probe directory, as PV.C11.Model reads it: spike times, spike templates (= spike clusters,
@@ -40,7 +57,7 @@ Definition sprobe := C11.Model.probe Z Z Z.
 Definition mksp (times tmpl : list Z) (ntmpl : Z) : sprobe :=
   C11.Model.mkprobe times (map (fun _ => 1) times) tmpl tmpl ntmpl [].
 
-Inductive input := InMerge (unit : Z) (ps : list (probe tok tok)) (sps : list sprobe).
+Inductive input := InMerge (unit : Z) (ps : list (probe tok tok)) (sps : list sprobe) (dts : list pdt).
 Inductive observed := ObsMerged (o : obsrec) | ObsCrash.
 Record case := { cid : Z; cin : input; cobs : observed }.
 
@@ -119,11 +136,11 @@ Definition par_eqb (a b : params tok) : bool :=
   tok_eqb (pr_rate a) (pr_rate b) && (pr_ncd a =? pr_ncd b) && (pr_offset a =? pr_offset b).
 
 Definition check (c : case) : list Z :=
-  match cin c with InMerge unit ps sps =>
-  if negb (regime unit ps && spikes_regime ps sps) then [3] else
-  match merge_side tzero unit ps, C11.Model.merge sps with
-  | None, _ | _, None => [3]
-  | Some m, Some sm =>
+  match cin c with InMerge unit ps sps dts =>
+  if negb (regime unit ps && spikes_regime ps sps && forall2b same_presence ps dts) then [3] else
+  match merge_side tzero unit ps, C11.Model.merge sps, merged_dt dts with
+  | None, _, _ | _, None, _ | _, _, None => [3]
+  | Some m, Some sm, Some mdts =>
     match cobs c with
     | ObsCrash => [1; 21; 22; 23; 24; 25; 26; 27]
     | ObsMerged o =>
@@ -142,6 +159,7 @@ Definition check (c : case) : list Z :=
         opt_eqb tll_eqb2 (m_sim m) (o_sim o) &&
         opt_eqb zlist_eqb (Some (C11.Model.m_times sm)) (o_stimes o) &&
         opt_eqb zlist_eqb (Some (C11.Model.m_tmpl sm)) (o_st o) &&
+        odt_matches mdts (o_dt o) &&
         match o_crashed o with [] => true | _ => false end in
       let g21 := opt_chk (chan_labels_b cms) (o_probe o) && opt_chk (chan_map_b cms) (o_map o) &&
                  opt_chk (pos_blocks_b (map p_pos ps)) opos in
